@@ -60,6 +60,7 @@ with open("/tmp/verif_repo.lock", "w") as lock:
         meta["ran"] = f"git -C /repo apply {dst}/patch.diff; ./check {prop} --tier {tier}; git -C /repo checkout -- ."
     finally:
         sh("git -C /repo checkout -- . && git -C /repo clean -fdq")
+        sh(f"git -C /verif checkout -- evidence/{prop}.json")  # the evidence file must describe the unchanged tree
 meta["detected"] = meta.get("check_exit") == 1
 meta["confirmed"] = meta["demo_without_patch_exit"] == 0 and meta.get("demo_with_patch_exit", 0) != 0 and "346 passed" in meta.get("tests_with_patch", "")
 json.dump(meta, open(f"{dst}/meta.json", "w"), indent=1)
